@@ -52,11 +52,63 @@ def norm_msg(o):
     return re.sub(r"'[^']*'|\d+", "#", m)[:70]
 
 
-def observe(env, progs, target="native", workers=12):
+BATCH = int(os.environ.get("VERIF_BATCH", "12"))
+BATCH_BYTES = int(os.environ.get("VERIF_BATCH_BYTES", "16000"))
+
+
+def build_and_run_batch(env, progs):
+    """Native only: one compile + link for several programs (process creation is what limits the throughput of
+    this sandbox), then one run per program, selected through standard input.  Returns a list of (o, r) like
+    build_and_run, or None when the batch as a whole is not accepted (the caller then builds each program alone, so
+    that a rejection or a compiler failure is attributed to the program that causes it)."""
+    d = env.tmpdir("sb")
+    p = os.path.join(d, "m.fer")
+    try:
+        with open(p, "w") as f:
+            f.write(progen.render_batch(progs))
+        exe = os.path.join(d, "m.out")
+        o = env.compile(p, out=exe, timeout=120)
+        if o["cls"] != "ACCEPT":
+            return None
+        return [(o, env.run_native(exe, stdin="%d\n" % k)) for k in range(len(progs))]
+    except Exception:
+        return None
+    finally:
+        shutil.rmtree(d, ignore_errors=True)
+
+
+def observe(env, progs, target="native", workers=12, solo=()):
     """progs: list of (prog AST, name).  Returns list of observation dicts:
        status in {ran, void, crash, hang, rejected, badrun}; for 'ran': out (list of lines), halt."""
     texts = [progen.render(p[0]) for p in progs]
-    res = core.pmap(lambda t: build_and_run(env, t, target), texts, workers=workers)
+    if target == "native" and BATCH > 1 and len(progs) > 1:
+        solo = set(solo)            # programs expected not to be accepted: built alone straight away
+        rest = [i for i in range(len(progs)) if i not in solo]
+        # at most BATCH programs and BATCH_BYTES of source text per translation unit (compile time grows faster than
+        # linearly with the size of a unit)
+        groups, cur, size = [], [], 0
+        for i in rest:
+            if cur and (len(cur) >= BATCH or size + len(texts[i]) > BATCH_BYTES):
+                groups.append(cur)
+                cur, size = [], 0
+            cur.append(i)
+            size += len(texts[i])
+        if cur:
+            groups.append(cur)
+        groups += [[i] for i in sorted(solo)]
+
+        def do(g):
+            br = build_and_run_batch(env, [progs[i][0] for i in g]) if len(g) > 1 else None
+            if br is None:
+                return [build_and_run(env, texts[i], target) for i in g]
+            # a run that did not end normally is repeated with the program alone in its executable
+            return [x if x[1]["cls"] == "EXIT0" else build_and_run(env, texts[i], target) for i, x in zip(g, br)]
+        res = [None] * len(progs)
+        for g, grp in zip(groups, core.pmap(do, groups, workers=workers)):
+            for i, x in zip(g, grp):
+                res[i] = x
+    else:
+        res = core.pmap(lambda t: build_and_run(env, t, target), texts, workers=workers)
     obs = []
     for (prog, name), text, (o, r) in zip(progs, texts, res):
         ob = {"name": name, "text": text, "prog": prog, "compile": o["cls"]}
